@@ -21,7 +21,8 @@ RULE = ("the real qmail-queue main() (ASan+UBSan build of the working tree) runs
 
 
 def builder(s):
-    obj, extra = s.prog_object("qq", "qmail-queue.c", "qmail-queue", keep_globals=["received", "receivedlen", "auto_split"])
+    obj, extra = s.prog_object("qq", "qmail-queue.c", "qmail-queue", keep_globals=["received", "receivedlen", "auto_split"],
+                                defines="-Dmalloc=qq_malloc")    # alloc.h: #define alloc(x) malloc(x); the harness can make the k-th alloc() fail
     return s.cc(os.path.join(VERIF, "harness/c01_queue.c"), os.path.join(s.dir, "h_c01"),
                 extra="%s/harness/sim.c %s %s -lpthread -ldl" % (VERIF, obj, extra))
 
